@@ -190,7 +190,11 @@ def impl_boot(tmp, v, c, cfg_text, via, soc=None):
             args = [core.PY, "-m", "suit_generator.cli", "image", "boot", "--input-file", envp, "--storage-output-directory", outdir]
             if cfgp:
                 args += ["--config-file", cfgp]
-            p = subprocess.run(args, cwd=d, capture_output=True, text=True, env=dict(os.environ, PYTHONPATH=core.REPO))
+            env = dict(os.environ, PYTHONPATH=core.REPO)
+            if via == "cli-c-locale":
+                # the files of a build are UTF-8 whatever the locale of the shell that runs the tool
+                env.update(LC_ALL="C", LANG="C", PYTHONUTF8="0", PYTHONCOERCECLOCALE="0")
+            p = subprocess.run(args, cwd=d, capture_output=True, text=True, env=env)
             if p.returncode:
                 return ("exn", "cli-exit-%d" % p.returncode)
         return ("ok", slot_of_output(outdir))
@@ -516,6 +520,16 @@ def boot_stream(ck, tmp):
         if r != ("ok", want):
             fails.append({"input": {"op": "boot", "vendor": v, "class": c, "config": text, "via": via}, "observed": str(r),
                           "expected": f"stored at offset {want[0]} (role {CONFIGURABLE[m]})"})
+    # a configuration with non-ASCII names read by a tool that runs under the C locale: the build's files are UTF-8 all the same
+    v, c = "é€ radio", "名前"
+    text = "SB_CONFIG_SUIT_ENVELOPE=y\n" + f"SB_CONFIG_SUIT_MPI_RAD_LOCAL_1_VENDOR_NAME={kq(v)}\nSB_CONFIG_SUIT_MPI_RAD_LOCAL_1_CLASS_NAME={kq(c)}\n"
+    for via in ("cli", "cli-c-locale"):
+        r = impl_boot(tmp, v, c, text, via)
+        want = [SLOT_OFFSET_54H20["RAD_LOCAL_1"]]
+        ck.count("boot", (text, v, c, via), sample={"config": text, "envelope": [v, c], "via": via})
+        if r != ("ok", want):
+            fails.append({"input": {"op": "boot", "vendor": v, "class": c, "config": text, "via": via}, "observed": str(r),
+                          "expected": f"stored at offset {want[0]} (role RAD_LOCAL_1)"})
     # the other SoC through the same entry point (the soc argument of the library call): configured and default classes
     import c07
     lay = c07.ABI["layouts"]["nrf9280"]
